@@ -93,8 +93,8 @@ func TestC11Huge(t *testing.T) {
 	datas := []gen.Data{
 		{Segs: []gen.Seg{{K: "rand", N: 9 << 20, S: 41}}},
 		{Segs: []gen.Seg{{K: "rand", N: 9 << 20, S: 42}, {K: "run", N: 65536, P: 0}, {K: "rand", N: 40, S: 3}}}, // (a match the sparse probes after a long literal run still find)
-		{Segs: []gen.Seg{{K: "rand", N: 100, S: 45}, {K: "run", N: 9 << 20, P: 0}, {K: "rand", N: 30, S: 46}}}, // one match of 9 MiB
-		{Segs: []gen.Seg{{K: "period", N: 9<<20 + 3, S: 47, P: 7}, {K: "rand", N: 30, S: 48}}},                 // ... at offset 7
+		{Segs: []gen.Seg{{K: "rand", N: 100, S: 45}, {K: "run", N: 9 << 20, P: 0}, {K: "rand", N: 30, S: 46}}},  // one match of 9 MiB
+		{Segs: []gen.Seg{{K: "period", N: 9<<20 + 3, S: 47, P: 7}, {K: "rand", N: 30, S: 48}}},                  // ... at offset 7
 		{Segs: []gen.Seg{{K: "text", N: 5 << 20, S: 43, P: 4}, {K: "rand", N: 5 << 20, S: 44}}},
 	}
 	if !thorough() {
